@@ -135,8 +135,25 @@ class CallMixin:
                 self.raise_(st1, "AttributeError", opt_isnone(base))
                 st1 = st1.assume(z3.Not(opt_isnone(base)))
                 base = opt_val(base)
+            if isinstance(base.t, TOpaque):
+                self.note_assumed(f"attribute store on an opaque object: {ast.unparse(target)[:60]} (no tracked effect)")
+                return st1
             if not isinstance(base.t, TRef):
                 raise EngineError(f"attribute store on {base.t}")
+            setter = self.ct.method(base.t.cls, "$set:" + target.attr)
+            if setter is not None and self.ct.field(base.t.cls, target.attr) is None:
+                fr = FuncRef(self.ct.classes[setter[0]].module, f"{setter[0]}.$set:{target.attr}", bound_self=base,
+                             cls=base.t.cls)
+                self.excs.append([])
+                try:
+                    res = list(self.call_inline(st1, setter[1], fr.module, setter[0],
+                                                f"{fr.module}:{setter[0]}.{target.attr}.setter", [val], {}, base, None))
+                finally:
+                    ex = self.excs.pop()
+                self.excs[-1].extend(ex)
+                if len(res) != 1:
+                    raise EngineError(f"property setter {target.attr} splits into {len(res)} paths")
+                return res[0][0]
             return self.field_write(st1, base.z, base.t.cls, target.attr, val)
         if isinstance(target, ast.Subscript):
             (st1, cont), = self._single(target.value, st)
@@ -243,6 +260,10 @@ class CallMixin:
             m = self.ct.method(t.cls, "__len__")
             fr = FuncRef(self.ct.classes[m[0]].module, f"{m[0]}.__len__", bound_self=a, cls=t.cls)
             yield from self.call_function(st, fr, [], {}, node)
+        elif isinstance(t, TOpaque):
+            self.note_assumed(f"len() of an opaque value ({t.nm}): some non-negative int")
+            n = fresh(INT, "len")
+            yield st.assume(n.z >= 0), n
         else:
             raise EngineError(f"len of {t}")
 
@@ -322,6 +343,13 @@ class CallMixin:
     def bi_print(self, st, args, kw, node):
         yield st, NONEV
 
+    def bi_super(self, st, args, kw, node):
+        cls = st.frame.cls
+        slf = st.frame.locals.get("self")
+        if cls is None or not isinstance(slf, V):
+            raise EngineError("super() outside a method of a declared class")
+        yield st, BuiltinRef(f"$super:{cls}")
+
     def bi_id(self, st, args, kw, node):
         a = self.as_value(args[0])
         if isinstance(a.t, TRef):
@@ -375,7 +403,13 @@ class CallMixin:
         yield st, mk_bool(z3.Select(self.type_tags(st), a.z) == self.ct.classes[nm].cid)
 
     def bi_range(self, st, args, kw, node):
-        zs = [coerce(self.as_value(a), INT).z for a in args]
+        zs = []
+        for a in args:
+            a = self.as_value(a)
+            if isinstance(a.t, TOpaque):
+                self.note_assumed("range() over an opaque bound: some int")
+                a = fresh(INT, "rng")
+            zs.append(coerce(a, INT).z)
         if len(zs) == 1:
             yield st, RangeVal(z3.IntVal(0), zs[0])
         elif len(zs) == 2:
@@ -651,6 +685,16 @@ class CallMixin:
         s2.ghost["$clock"] = t
         yield s2, mk_float(t)
 
+    def bi_time_time_ns(self, st, args, kw, node):
+        t = z3.Int(fresh_name("clock_ns"))
+        prev = st.ghost.get("$clock_ns")
+        s2 = st.fork()
+        if prev is not None:
+            s2.pc.append(t >= prev)
+        s2.ghost["$clock_ns"] = t
+        yield s2, mk_int(t)
+
+    bi_time_monotonic_ns = bi_time_time_ns
     bi_time_monotonic = bi_time_time
     bi_time_perf_counter = bi_time_time
 
